@@ -262,6 +262,20 @@ func (x *Run) callFunc(fr *Frame, st *State, fn *ssa.Function, args []Val, bindi
 	// --- deterministic library functions: uninterpreted function of the arguments ---
 	if x.spec.detExt(fn) {
 		ret := x.ufApply(st, "ext."+x.fnShort(fn), args, fn.Signature.Results())
+		if fn.String() == "(*encoding/base64.Encoding).EncodeToString" && len(args) == 2 {
+			// library axiom, instantiated where the encoding is produced:
+			// DecodeString(enc, EncodeToString(enc, b)) == (b, nil)
+			errT := types.Universe.Lookup("error").Type()
+			rt := types.NewTuple(types.NewVar(0, nil, "", args[1].Ty), types.NewVar(0, nil, "", errT))
+			dec := x.ufApply(st, "ext."+strings.Replace(x.fnShort(fn), "EncodeToString", "DecodeString", 1), []Val{args[0], ret}, rt)
+			if len(dec.Tup) == 2 && dec.Tup[0].S == args[1].S {
+				st.assume(eq(dec.Tup[0].T, args[1].T))
+				st.assume(eq(dec.Tup[1].T, "inil"))
+				x.mu.Lock()
+				x.trusted["library-axiom:base64 DecodeString(EncodeToString(b)) == b for the same encoding"] = true
+				x.mu.Unlock()
+			}
+		}
 		st.events = append(st.events, Event{Name: "call:" + fn.String(), Args: args, Ret: ret})
 		return single(st, ret)
 	}
